@@ -245,6 +245,8 @@ def default_models():
 
     # ---- threading --------------------------------------------------------------------------------
     reg('threading.get_ident', lambda I: I.hooks['thread_ident'](I))
+    reg('threading.Lock', lambda I: Lock())
+    reg('threading.RLock', lambda I: Lock())
 
     # ---- pathlib -----------------------------------------------------------------------------------
     def _path(I, *parts):
@@ -258,6 +260,33 @@ def default_models():
     reg('pathlib.Path', _path)
     m['types:known'] = {'pathlib.Path', 'numpy.ndarray', 'pandas.Timestamp', 'datetime.datetime'}
     return m
+
+
+class Lock(Model):
+    """threading.Lock: a `with lock:` block is one indivisible group of atomic actions."""
+    type_names = ('threading.Lock',)
+    count = 0
+
+    def __init__(self):
+        Lock.count += 1
+        self.lid = Lock.count
+
+    def py_enter(self, I):
+        I.hooks['atomic_depth'] = I.hooks.get('atomic_depth', 0) + 1
+        if I.hooks['atomic_depth'] == 1:
+            I.hooks['group_counter'] = I.hooks.get('group_counter', 0) + 1
+        return self
+
+    def py_exit(self, I, exc):
+        I.hooks['atomic_depth'] -= 1
+        return False
+
+    def py_getattr(self, I, name):
+        if name == 'acquire':
+            return Builtin('acquire', lambda *a, **k: (self.py_enter(I), True)[1], pure=False)
+        if name == 'release':
+            return Builtin('release', lambda: self.py_exit(I, None), pure=False)
+        raise Unsupported('Lock.' + name)
 
 
 class FieldName(Model):
